@@ -565,3 +565,46 @@ Section Polygon.
   Fixpoint poly_iter (keep_stale : bool) (n : nat) (p : polygon) : polygon :=
     match n with 0 => p | Datatypes.S k => poly_iter keep_stale k (poly_invert keep_stale p) end.
 End Polygon.
+
+(** * (c'') The covering cache of an EdgeQuery in detail: TWO parallel slices, indexCovering (cell
+      ids) and indexCells (the matching *ShapeIndexCell, or nil). initCovering runs when
+      len(indexCovering) == 0: it re-creates indexCovering with make and then addInitialRange
+      APPENDS one entry to each slice per top-level cell; the search pairs them by position
+      (processOrEnqueue(e.indexCovering[i], e.indexCells[i])). Reset must therefore clear both. *)
+Section CoveringCache.
+  Context {Ix Cid Cptr : Type}.
+  Variable ranges : Ix -> list (Cid * Cptr).   (* the top-level cells of an index, with their cell pointers *)
+
+  Record ccache := mkCC { ccov : list Cid; cptrs : list Cptr }.
+  Definition cc_new : ccache := mkCC [] [].
+
+  Definition cc_init (ix : Ix) (c : ccache) : ccache :=
+    match ccov c with
+    | [] => mkCC (map fst (ranges ix)) (cptrs c ++ map snd (ranges ix))
+    | _ => c
+    end.
+  (** what the optimized search starts from *)
+  Definition cc_paired (c : ccache) : list (Cid * Cptr) := combine (ccov c) (cptrs c).
+
+  (** EdgeQuery.Reset as it is / with the line [e.indexCells = nil] missing *)
+  Definition cc_reset (c : ccache) : ccache := mkCC [] [].
+  Definition cc_reset_keeps_cells (c : ccache) : ccache := mkCC [] (cptrs c).
+
+  Inductive cop := CQuery | CReset | CReinit (ix : Ix).   (* CReinit: the index changed, then Reset *)
+
+  Definition cstep (rst : ccache -> ccache) (s : Ix * ccache) (o : cop) : outcome ((Ix * ccache) * list (list (Cid * Cptr))) :=
+    let '(ix, c) := s in
+    match o with
+    | CQuery => let c' := cc_init ix c in Ok ((ix, c'), [cc_paired c'])
+    | CReset => Ok ((ix, rst c), [])
+    | CReinit ix' => Ok ((ix', rst c), [])
+    end.
+
+  Fixpoint cspec (ix : Ix) (h : list cop) : list (list (Cid * Cptr)) :=
+    match h with
+    | [] => []
+    | CQuery :: r => ranges ix :: cspec ix r
+    | CReset :: r => cspec ix r
+    | CReinit ix' :: r => cspec ix' r
+    end.
+End CoveringCache.
